@@ -119,6 +119,10 @@ def run(ctx):
     else:
         for k in range(n):
             fs, _ = gen.gen_fileset(rng, nfiles=1, allow_obj_struct=(k % 2 == 0))
+            if k % 4 == 1:
+                # every struct declared after the interfaces that use it (their relative order kept)
+                f0 = fs["files"][0]
+                f0["decls"] = [d for d in f0["decls"] if d[0] != "struct"] + [d for d in f0["decls"] if d[0] == "struct"]
             bases.append(fs["files"][0])
 
     def one(k):
